@@ -602,6 +602,23 @@ func (s *IndexedState) deleteDependencies(ctx *Context, id string) error {
 		}
 	}
 
+	// A property of the id that was written as a fact
+	// ({"id":id,"!prop":val}) doesn't have to say 'deleteWith' (as
+	// SetProp does), but it goes with its target just the same.
+	srs, err = s.search(ctx, Map{"id": id})
+	if nil != err {
+		return err
+	}
+	for _, sr := range srs.Found {
+		fact, have := s.IdToFact[sr.Id]
+		if !have || sr.Id == id || !propertyOf(fact, id) {
+			continue
+		}
+		if _, err := s.rem(ctx, sr.Id); nil != err {
+			return err
+		}
+	}
+
 	return nil
 }
 
